@@ -145,17 +145,20 @@ void h_wake_all_deep(void) {
   VERIF_CANARY();
 }
 
-int g_last_was_empty, g_any_woken;
+int g_last_was_empty, g_any_woken, g_wia_polls;
 int wake_if_any_contract(myth_sleep_queue_t * q, callback_on_wakeup_t callback, void * arg)
   __CPROVER_requires(q == CV.sleep_q && callback == 0 && arg == 0)
   __CPROVER_requires(g_last_was_empty == 0 && "no poll after the queue has been seen empty")
-  __CPROVER_assigns(g_last_was_empty, g_any_woken)
+  __CPROVER_assigns(g_last_was_empty, g_any_woken, g_wia_polls)
   __CPROVER_ensures(__CPROVER_return_value == 0 || __CPROVER_return_value == 1)
+  __CPROVER_ensures(g_wia_polls == 1)
   __CPROVER_ensures((g_last_was_empty == 0 || g_last_was_empty == 1) && (__CPROVER_return_value == 0) == (g_last_was_empty == 1));
 void h_wake_all(void) {
-  g_last_was_empty = 0; g_any_woken = 0;
+  g_last_was_empty = 0; g_any_woken = 0; g_wia_polls = 0;
   int n = myth_wake_all_from_queue(CV.sleep_q, 0, 0);
-  __CPROVER_assert(g_last_was_empty == 1, "wake_all: returns only after the queue has been observed empty (every thread blocked at that moment was woken)");
+  /* decided here only for a wake_all built on wake_if_any (the code as it is); a wake_all re-structured on other
+     primitives is judged by job wake_all.deep, which looks at dequeues and publications */
+  __CPROVER_assert(g_wia_polls == 0 || g_last_was_empty == 1, "wake_all: returns only after the queue has been observed empty (every thread blocked at that moment was woken)");
   VERIF_CANARY();
 }
 
